@@ -29,12 +29,13 @@ func init() {
 		id: "C19",
 		explanation: "Static clauses of 'a finished streaming run leaves no blocked producer or goroutine behind' (every place where the framework drops or drains a stream closes it): " +
 			"(surplus-closed) updateValues closes the copy handed to a successor that takes no data from the sender, for every target — the per-sender loop is never skipped; " +
+			"(selected-never-skipped) calculateBranch prunes the targets selected by any branch from the skipped set only after all branches of the node were evaluated — a node that is sent a stream copy is never marked skipped (a skipped channel drops what it receives unread); " +
 			"(drain-closes) concatStreamReader defers Close of what it drains before anything else; " +
 			"(forwarders) forwarding goroutines close their source and output on every exit (C08.forwarder-protocol); " +
 			"(last-close) closing the last copy closes the source, each child counted once (C08.copy-cell); " +
 			"(close-exhaustive) StreamReader.Close handles all kinds, a merged reader closes every source, a converting reader delegates; " +
 			"(copies-all-used) copyItem hands out every copy it creates.",
-		decided:    []string{"surplus-closed", "drain-closes", "forwarders", "last-close", "close-exhaustive", "copies-all-used"},
+		decided:    []string{"surplus-closed", "selected-never-skipped", "drain-closes", "forwarders", "last-close", "close-exhaustive", "copies-all-used"},
 		notDecided: []string{"absence of blocked goroutines as a run-time fact", "copy-count arithmetic vs. number of consumers (no solver)", "streams dropped on framework error paths (outside the property's premise)", "user nodes that do not close their inputs"},
 		run:        runC19,
 	})
